@@ -773,7 +773,14 @@ def main():
             ck.witness(f"witness.assumptions.{oid}", list(asm), nonlinear=kw.get("nonlinear", False))
         if not kw.get("nonlinear") and not kw.get("ackermann") and not isconc(goal):
             asm = list(asm) + div_axioms(list(asm) + [goal])      # valid facts about the quotients in the query (probs >= 0)
-        return _prove(oid, asm, goal, **kw)
+        ok = _prove(oid, asm, goal, **kw)
+        ob = ck.obls[-1]
+        if not ok and ob.oid == oid and ob.status == "unknown" and not kw.get("nonlinear") and not kw.get("ackermann"):
+            # the default solver occasionally wanders on an easy query: one retry after Ackermannisation (different preprocessing)
+            ck.obls.pop()
+            ck.inconclusive.remove(ob)
+            ok = _prove(oid, asm, goal, **dict(kw, ackermann=True))
+        return ok
     ck.prove = prove
     ck.mode = "LOG (discrete laws, squashing identities), REAL modulo uninterpreted log/exp/logistic (continuous laws), XREAL (discrete samplers)"
     Ks = [2, 3] if not ck.thorough else [2, 3, 4, 5, 6]
